@@ -20,6 +20,7 @@ pub fn run_job(job: &Job) -> RunResult {
     match job.engine.as_str() {
         "io-sim" => crate::iosim::run(job),
         "lsp-sim" => crate::lsp::run(job),
+        "api-sim" => crate::apisim::run(job),
         other => {
             let mut r = RunResult::new(job);
             r.harness(format!("unknown engine {other}"));
